@@ -958,18 +958,23 @@ def run_tree_case(ctx, case):
                 from dvc_data.hashfile.meta import Meta
                 from dvc_data.hashfile.tree import Tree
 
-                tr = Tree()
-                for k, c in zip(ks, cells):
-                    if c:
-                        hx, size, isexec = table[c - 1]
-                        tr.add(k, Meta(size=size, isexec=isexec), HashInfo(mode, hx))
-                tr.digest(with_meta=mode != "md5")
                 pth = os.path.join(store, oid[:2], oid[2:])
                 if os.path.lexists(pth):  # an object of an earlier case (same hashes, other metadata)
                     os.chmod(pth, 0o644)
                     os.unlink(pth)
-                tr.oid = oid
-                add_update_tree(writer, tr)
+                try:
+                    tr = Tree()
+                    for k, c in zip(ks, cells):
+                        if c:
+                            hx, size, isexec = table[c - 1]
+                            tr.add(k, Meta(size=size, isexec=isexec), HashInfo(mode, hx))
+                    tr.digest(with_meta=mode != "md5")
+                    tr.oid = oid
+                    add_update_tree(writer, tr)
+                except Exception as exc:  # noqa: BLE001
+                    # the input could not be built this way (not merge's doing): plant it, keep the case
+                    ctx.count(f"tree:save-route-failed:{type(exc).__name__}")
+                    impl.plant(store, oid, data)
             else:
                 impl.plant(store, oid, data)
             objs[oid] = list(cells)
@@ -1245,7 +1250,7 @@ def run(ctx):
     import time
     tm = {}
     t0 = time.time()
-    m_items = stream_merge(ctx, vals, ctx.n(600, 6000))
+    m_items = stream_merge(ctx, vals, ctx.n(500, 6000))
     n_merge_eval = ctx.evaluations
     ctx.obligation("oracle:_merge", oracle_ok(ctx),
                    f"{len(m_items)} triples x both orders on the real _merge judged by the independent per-key "
@@ -1288,7 +1293,7 @@ def run(ctx):
     tm["py_sweep"] = round(time.time() - t0, 2)
     t0 = time.time()
 
-    t_items = stream_tree(ctx, ctx.n(130, 1000))
+    t_items = stream_tree(ctx, ctx.n(90, 1000))
     if thorough:
         t_items += tree_exhaustive(ctx)
     ctx.obligation("oracle:merge-objects", oracle_ok(ctx),
